@@ -73,6 +73,8 @@ def make_atoms(rng, n, edge, sheared=False):
     cell = np.eye(3) * edge
     if sheared:
         cell = cell + np.tril(rng.uniform(-0.4, 0.4, (3, 3)), -1) * edge
+        if rng.random() < 0.35:
+            cell = cell[[1, 0, 2]]  # lattice vectors listed as a left-handed set (negative determinant, same volume)
     return Atoms("Cu" * n, positions=rng.uniform(0, 1, (n, 3)) @ cell, cell=cell, pbc=True)
 
 
